@@ -15,8 +15,15 @@ func (p *Program) SSA() *ssaProgram {
 	if p.ssa != nil {
 		return p.ssa
 	}
+	// the SSA builder needs each package's own type information (initialisation order is per package)
+	for _, pkg := range p.All {
+		pkg.TypesInfo = p.origInfo[pkg]
+	}
 	prog, pkgs := ssautil.AllPackages(p.All, ssa.InstantiateGenerics)
 	prog.Build()
+	for _, pkg := range p.All {
+		pkg.TypesInfo = p.Info
+	}
 	sp := &ssaProgram{Prog: prog, Pkgs: map[string]*ssa.Package{}}
 	for i, pkg := range p.All {
 		if pkgs[i] == nil {
